@@ -31,12 +31,12 @@ XsNext(e, st) ==
                   /\ o.theirs = st.wire[e.w].u /\ XLastOK(s2) /\ XWireOK(s2) /\ XLifeOK(s2),
                 <<s2.last.ss, s2.last.contributory>>, s2>>
          ELSE <<~o.live, "no live secret", st>>
-\* equality of the wire types CompressedRistretto and CompressedEdwardsY is equality of the 32 bytes - for ==, ct_eq and Hash
-\* alike (MontgomeryPoint, and with it x25519 PublicKey, compares the VALUE mod p: that is mont.eq in TraceMisc)
+\* equality of the wire types CompressedRistretto and CompressedEdwardsY is equality of the 32 bytes - for == and ct_eq; equal
+\* strings hash alike, which is all the Hash contract promises (MontgomeryPoint, and with it x25519 PublicKey, compares the VALUE mod p: that is mont.eq in TraceMisc)
 EncEqStep ==
   /\ l <= Len(Rec) /\ Rec[l].op = "enc.eq"
   /\ LET e == Rec[l]  x == (e.in[1] = e.in[2]) IN
-       Note(NoPanic(e) /\ e.obs.eq = x /\ e.obs.ct = x /\ e.obs.hash_eq = x, e, x)
+       Note(NoPanic(e) /\ e.obs.eq = x /\ e.obs.ct = x /\ (x => e.obs.hash_eq), e, x)
   /\ l' = l + 1 /\ UNCHANGED regs
 \* PKCS#8 (C16): a v2 private-key document is accepted exactly when its embedded public key is THE public key of the seed (the rule
 \* of from_keypair_bytes); a document without one always; a SubjectPublicKeyInfo exactly when the bytes decode as a point; the
